@@ -59,6 +59,26 @@ func VerifC35_Histories() {
 	const attempt, timeout = uint64(3), uint64(1000)
 	ch := &vstubChannel{}
 	sdc := newSigningDoneCheck(len(ops), ch, group.NewMembershipValidator(log.Logger("verif"), ops, &vstubSigning{}))
+	// the retry loop reuses one done-check for all attempts of a message: an
+	// earlier attempt (other members, lower attempt number) that timed out must
+	// leave nothing behind
+	if vBool() {
+		vReach("previous-attempt")
+		prevCtx, prevCancel := context.WithCancel(context.Background())
+		sdc.listen(prevCtx, msg, attempt-1, timeout-100, []group.MemberIndex{1, 3, 4})
+		ps := group.MemberIndex(vU8())
+		vAssume(ps >= 1 && ps <= 4)
+		ch.handler(&vMsg{key: byte(ps - 1), payload: &signingDoneMessage{senderID: ps, message: msg, attemptNumber: attempt - 1, endBlock: 50, signature: vSigs[1]}})
+		vQuiesce()
+		go func() {
+			if !vSymbolic() {
+				time.Sleep(350 * time.Millisecond)
+			}
+			prevCancel()
+		}()
+		_, _, perr := sdc.waitUntilAllDone(prevCtx)
+		vAssert(perr != nil, "an attempt with one confirmation out of three reported a result")
+	}
 	ctx, cancel := context.WithCancel(context.Background())
 	sdc.listen(ctx, msg, attempt, timeout, included)
 
